@@ -17,6 +17,9 @@ import poolcommon as pc
 REQUIRED_THEOREMS = [
     "C10_running_le_max", "C10_serving_le_max", "C10_ctor_max_rejected", "C10_ctor_min_rejected", "C10_ctor_accepted",
     "C10_counters_exact", "C10_threads_le_max",
+    "C10_no_starvation_owed", "C10_no_starvation", "C10_no_starvation_unlocked", "C10_free_worker_exists",
+    "C10_min_floor", "C10_serving_eq_threads",
+    "C10_progress_no_stuck_worker", "C10_progress_no_stuck", "C10_progress_measure",
     "C10_gen_poolGrowthRule", "C10_gen_poolSpawnRefusal", "C10_gen_poolRetireRule", "C10_gen_poolPendingStores",
     "C10_gen_poolClearDecrementsTasksOnly", "C10_gen_poolCtorDefaults", "C10_gen_poolUnlockedAccesses",
 ]
